@@ -180,8 +180,12 @@ def run(prop, tier, seed, replay=None):
                                                               "resolve": st["obs"]["resolve"], "predlog": st["obs"]["predlog"],
                                                               "slf": st["obs"]["slf"]}} for st in c["steps"]]})
     if vcases:
-        vv, r = tlc.judge("Trace_Resolve", vcases)
-        rep.add_tlc(r, "judge Trace_Resolve (C03VClause: arguments and self through the value dispatchers)")
+        vv = {}
+        VB = 800
+        for kb in range(0, len(vcases), VB):
+            vb, r = tlc.judge("Trace_Resolve", vcases[kb : kb + VB])
+            rep.add_tlc(r, f"judge Trace_Resolve (C03VClause: arguments and self through the value dispatchers) batch {kb // VB}")
+            vv.update(vb)
         rep.judged += len(vv)
         vfull = {c["id"]: c for c in vres}
         for cid, v in vv.items():
